@@ -124,6 +124,18 @@ Theorem C16_operand_unchanged V (h : heap (V := V)) i io ks : i < List.length h 
 Proof. intros H1 H2. split; [apply h_sub_fresh; auto|apply h_add_fresh; auto]. Qed.
 Print Assumptions C16_operand_unchanged.
 
+(* a parameter with a default still counts as a dependency when its name is a derived key, takes the mapping's value when
+   there is one, and falls back to its default only when its name is nowhere: c = lambda a, b=100 waits for b *)
+Theorem C16_call_defaulted_parameters :
+  let c := IFun [("a", None); ("b", Some 100%Z)] (fun vs => fold_left Z.add vs 0%Z) in
+  let b := IFun [("a", None)] (fun vs => fold_left Z.add vs 1%Z) in
+  dict_call (fun _ => 0%Z) [("a", 1%Z)] [("c", c); ("b", b)] = COk [("a", 1%Z); ("b", 2%Z); ("c", 3%Z)] /\
+  dict_call (fun _ => 0%Z) [("a", 1%Z)] [("b", b); ("c", c)] = COk [("a", 1%Z); ("b", 2%Z); ("c", 3%Z)] /\
+  dict_call (fun _ => 0%Z) [("a", 1%Z)] [("c", c)] = COk [("a", 1%Z); ("c", 101%Z)] /\
+  dict_call (fun _ => 0%Z) [("a", 1%Z); ("b", 7%Z)] [("c", c)] = COk [("a", 1%Z); ("b", 7%Z); ("c", 8%Z)].
+Proof. vm_compute. repeat split. Qed.
+Print Assumptions C16_call_defaulted_parameters.
+
 (* Dict.__call__: for acyclic definitions whose parameters can all be bound, the call succeeds, the
    result satisfies every definition (each derived key = its function of the final values of its
    parameters, everything else untouched), such a result is unique, and it is the same mapping for
@@ -164,9 +176,9 @@ Print Assumptions C16_call_cycle_raises.
 (* known finding: an entry or a keyword literally named self collides with the self parameter of the methods the
    values travel through (Dict.__call__, wrapper.__call__): TypeError even for a callable that never asks for it *)
 Theorem C16_call_self_named_key_refuted :
-  dict_call (fun _ => 0%Z) [("a", 1%Z); ("self", 2%Z)] [("k", IFun ["a"] (fun vs => 0%Z))] = CErr "TypeError" /\
+  dict_call (fun _ => 0%Z) [("a", 1%Z); ("self", 2%Z)] [("k", IFun [("a", None)] (fun vs => 0%Z))] = CErr "TypeError" /\
   dict_call (fun _ => 0%Z) [("a", 1%Z)] [("self", IConst 2%Z)] = CErr "TypeError" /\
-  dict_call (fun _ => 0%Z) [("a", 1%Z)] [("k", IFun ["a"] (fun vs => 0%Z))] = COk [("a", 1%Z); ("k", 0%Z)].
+  dict_call (fun _ => 0%Z) [("a", 1%Z)] [("k", IFun [("a", None)] (fun vs => 0%Z))] = COk [("a", 1%Z); ("k", 0%Z)].
 Proof. vm_compute. repeat split. Qed.
 Print Assumptions C16_call_self_named_key_refuted.
 
@@ -181,11 +193,11 @@ Example C16_example :
   mk hv_eqb [HInt 1; HInt 3; HFloat 1; HInt 2; HBool true; HInt 3] = [HInt 1; HInt 3; HInt 2] /\
   ul_add hv_eqb [HInt 1; HInt 3; HInt 2] (OList [HInt 4; HFloat 1; HInt 5; HInt 4]) = [HInt 1; HInt 3; HInt 2; HInt 4; HInt 5] /\
   ul_and hv_eqb [HInt 1; HInt 3; HInt 2] (OElem (HFloat 3)) = [HFloat 3] /\
-  (let kw := [("c", IFun ["a"; "b"] (fun vs => fold_left Z.add vs 0%Z)); ("b", IFun ["a"] (fun vs => fold_left Z.add vs 1%Z))] in
+  (let kw := [("c", IFun [("a", None); ("b", Some 100%Z)] (fun vs => fold_left Z.add vs 0%Z)); ("b", IFun [("a", None)] (fun vs => fold_left Z.add vs 1%Z))] in
    acyclic (funs kw) /\ avail (aupdate [("a", 1%Z)] (consts kw)) (funs kw) /\ NoDup (map fst kw) /\ self_free [("a", 1%Z)] kw /\
    dict_call (fun _ => 0%Z) [("a", 1%Z)] kw = COk [("a", 1%Z); ("b", 2%Z); ("c", 3%Z)] /\
    dict_call (fun _ => 0%Z) [("a", 1%Z)] (rev kw) = COk [("a", 1%Z); ("b", 2%Z); ("c", 3%Z)]) /\
-  dict_call (fun _ => 0%Z) [("a", 1%Z)] [("b", IFun ["c"] (fun vs => 0%Z)); ("c", IFun ["b"] (fun vs => 0%Z))] = CErr "ValueError".
+  dict_call (fun _ => 0%Z) [("a", 1%Z)] [("b", IFun [("c", None)] (fun vs => 0%Z)); ("c", IFun [("b", Some 5%Z)] (fun vs => 0%Z))] = CErr "ValueError".
 Proof.
   split; [split; [exact hv_eqb_refl|split; [exact hv_eqb_sym|exact hv_eqb_trans]]|].
   split; [vm_compute; reflexivity|]. split; [vm_compute; reflexivity|]. split; [vm_compute; reflexivity|].
